@@ -439,7 +439,7 @@ pub fn c01(ctx: &Ctx) -> Report {
     fill_report(ctx, &mut rep, &st, n);
     rep.set("small_regime_cases", n_small as u64);
     rep.set("large_regime_cases", n_large as u64);
-    rep.set("payload_lengths_small", format!("0..={max_len}, all chunkings (compositions) x 6 size-line decorations x trailing garbage"));
+    rep.set("payload_lengths_small", format!("0..={max_len}, all chunkings (compositions) x 8 size-line decorations x trailing garbage"));
     rep.set("cut_bound_completed", max_cut_bound_small as u64);
     rep.set("exhaustive", st.capped_cases == 0);
     rep.set(
@@ -723,13 +723,15 @@ pub fn c19(ctx: &Ctx) -> Report {
     }
     let (st, n) = run_cases(ctx, cases);
     let n_redirect = redirect_pause_cells(ctx);
+    let n_lenclose = length_with_close_cells(ctx);
     let mut rep = Report::new("model_checking");
     fill_report(ctx, &mut rep, &st, n);
     rep.set("redirect_pause_cells", n_redirect);
+    rep.set("length_with_connection_close_cells", n_lenclose);
     rep.set("exhaustive", st.capped_cases == 0);
     rep.set(
         "rule",
-        format!("(send() across redirects: 5 followed statuses x {{Content-Length 64, chunked, close-delimited}} x how much of the announced body arrived before the redirecting server pauses x transport read size {{whole, 1, 7}} x 1 or 2 such hops: the redirecting connection is never asked beyond the pause and the final response is returned) + (write_to into a counting writer as one more caller operation: when the transport is asked beyond the pause the writer has received everything deliverable) + every small-regime wire (payload 0..={max_len}, all chunkings, 3 framings) and one 70000-byte chunk x a pause at every byte offset (structural offsets for the large wire) x segmentations of the prefix (none, uniform 1/2/3, every 1- and 2-cut set) x every caller read-size sequence over {{1,2,3,7,8192,200000}} with state merging; the transport answers a read at the pause with a marker error, ending the execution at the moment a real client would block for ever"),
+        format!("(length-delimited responses that also carry Connection: close / keep-alive fields, complete body then the server keeps the socket open: the end is reported without asking for more) + (send() across redirects: 5 followed statuses x {{Content-Length 64, chunked, close-delimited}} x how much of the announced body arrived before the redirecting server pauses x transport read size {{whole, 1, 7}} x 1 or 2 such hops: the redirecting connection is never asked beyond the pause and the final response is returned) + (write_to into a counting writer as one more caller operation: when the transport is asked beyond the pause the writer has received everything deliverable) + every small-regime wire (payload 0..={max_len}, all chunkings, 3 framings) and one 70000-byte chunk x a pause at every byte offset (structural offsets for the large wire) x segmentations of the prefix (none, uniform 1/2/3, every 1- and 2-cut set) x every caller read-size sequence over {{1,2,3,7,8192,200000}} with state merging; the transport answers a read at the pause with a marker error, ending the execution at the moment a real client would block for ever"),
     );
     rep.assume("zero-length reads are outside the alphabet (the property says 1 byte upward)");
     rep.assume("deliverable = every body byte of the prefix for length/close framing; for chunked framing the data of every chunk whose terminating line break is inside the prefix");
@@ -793,14 +795,90 @@ pub fn redirect_pause_cells(ctx: &Ctx) -> u64 {
     n
 }
 
+/// A length-delimited response that also says `Connection: close` (what servers answer to this
+/// client's `Connection: close` requests) and whose server keeps the socket open for a while: the
+/// end of the body is known from the length, nothing waits for the close.
+pub fn length_with_close_cells(ctx: &Ctx) -> u64 {
+    use std::io::Read;
+    let mut n = 0u64;
+    for conn in ["Connection: close\r\n", "connection: Close\r\n", "Connection: keep-alive, close\r\n", "Keep-Alive: timeout=5\r\nConnection: keep-alive\r\n"] {
+        for len in [0usize, 1, 5] {
+            for (before, after) in [(true, false), (false, true)] {
+                for uniform in [None, Some(1usize)] {
+                    for op in ["read1", "read8192", "bytes", "write_to", "text"] {
+                        n += 1;
+                        let body = payload(len);
+                        let mut w = b"HTTP/1.1 200 OK\r\n".to_vec();
+                        if before {
+                            w.extend_from_slice(conn.as_bytes());
+                        }
+                        w.extend_from_slice(format!("Content-Length: {len}\r\n").as_bytes());
+                        if after {
+                            w.extend_from_slice(conn.as_bytes());
+                        }
+                        w.extend_from_slice(b"\r\n");
+                        w.extend_from_slice(&body);
+                        let mut s = Script::plain(w);
+                        s.end = End::Pause;
+                        s.policy.uniform = uniform;
+                        let world = World::single(s, false);
+                        let res = guarded(|| -> Result<Vec<u8>, String> {
+                            let mut r = attohttpc::get("http://h.test/x").send().map_err(|e| format!("send: {e}"))?;
+                            match op {
+                                "bytes" => r.bytes().map_err(|e| e.to_string()),
+                                "text" => r.text_utf8().map(|s| s.into_bytes()).map_err(|e| e.to_string()),
+                                "write_to" => {
+                                    let mut v = Vec::new();
+                                    r.write_to(&mut v).map_err(|e| e.to_string())?;
+                                    Ok(v)
+                                }
+                                _ => {
+                                    let k = if op == "read1" { 1 } else { 8192 };
+                                    let mut out = Vec::new();
+                                    let mut buf = vec![0u8; k];
+                                    loop {
+                                        match r.read(&mut buf) {
+                                            Ok(0) => break,
+                                            Ok(m) => out.extend_from_slice(&buf[..m]),
+                                            Err(e) => return Err(e.to_string()),
+                                        }
+                                    }
+                                    Ok(out)
+                                }
+                            }
+                        });
+                        let asked = world.shared(0).lock().unwrap().asked_beyond_pause;
+                        let ok = matches!(&res, Ok(Ok(b)) if *b == body);
+                        if asked || !ok {
+                            ctx.violation(
+                                "C19:length:wait:after-complete-frame".to_string(),
+                                format!(
+                                    "response with \"{}\" and Content-Length {len}, all {len} body bytes sent, the server keeps the connection open; {op} with transport reads of {uniform:?}: {} (result {})",
+                                    conn.trim_end().replace("\r\n", " / "),
+                                    if asked { "the client asked the transport for more bytes although the whole frame had arrived" } else { "wrong result" },
+                                    format!("{res:?}").chars().take(120).collect::<String>()
+                                ),
+                                json!({"engine": "c19-length-close"}),
+                                n,
+                            );
+                        }
+                    }
+                }
+            }
+        }
+    }
+    n
+}
+
 fn short_res(r: &Result<attohttpc::Result<Vec<u8>>, String>) -> String {
     format!("{r:?}").chars().take(140).collect()
 }
 
 pub fn replay_e1(v: &serde_json::Value) -> i32 {
-    if v["case"]["engine"] == "c19-redirect" {
+    if v["case"]["engine"] == "c19-redirect" || v["case"]["engine"] == "c19-length-close" {
         let ctx = Ctx::new("C19", Tier::Quick);
         redirect_pause_cells(&ctx);
+        length_with_close_cells(&ctx);
         let vs = ctx.drain_violations();
         for (v, n) in &vs {
             println!("{}: {} ({n} cases)", v.signature, v.what);
